@@ -18,16 +18,25 @@ def IsBase (s : State) (a : Nat) (x : Boxed) : Prop :=
 structure Inv (s : State) : Prop where
   fresh : ∀ i, s.n ≤ i → (s.mks i).mocked = false
   act : ∀ i, (s.mks i).mocked = true → (s.mks i).canceled = false
-  cur : ∀ i, (s.mks i).mocked = true → s.cache (s.mks i).b (s.mks i).ue (s.mks i).addr = some i
+  allCached : ∀ i, i < s.n → s.cache (s.mks i).b (s.mks i).ue (s.mks i).addr = some i
+  ptrTyped : ∀ i, i < s.n → (s.mks i).ue = false → (s.mks i).target = some (s.mem (s.mks i).addr).ty
   uniq : ∀ i j, (s.mks i).mocked = true → (s.mks j).mocked = true → (s.mks i).addr = (s.mks j).addr → i = j
   typed : ∀ i, (s.mks i).mocked = true → (s.mks i).target = some (s.mem (s.mks i).addr).ty
   cacheOK : ∀ b u c i, s.cache b u c = some i →
     i < s.n ∧ (s.mks i).b = b ∧ (s.mks i).ue = u ∧ (s.mks i).addr = c
 
-/-- mocker `i` is the one its builder has cached for its variable, and no other mocker mocks that variable -/
+/-- mocker `i` exists, and no other mocker currently holds a mock of its variable -/
 def Owner (s : State) (i : Nat) : Prop :=
-  s.cache (s.mks i).b (s.mks i).ue (s.mks i).addr = some i ∧
+  i < s.n ∧
   ∀ j, j ≠ i → (s.mks j).mocked = true → (s.mks j).addr ≠ (s.mks i).addr
+
+theorem Inv.lt {s : State} (hI : Inv s) {i : Nat} (h : (s.mks i).mocked = true) : i < s.n := by
+  cases Nat.lt_or_ge i s.n with
+  | inl h' => exact h'
+  | inr h' => rw [hI.fresh i h'] at h; cases h
+
+theorem Inv.cur {s : State} (hI : Inv s) (i : Nat) (h : (s.mks i).mocked = true) :
+    s.cache (s.mks i).b (s.mks i).ue (s.mks i).addr = some i := hI.allCached i (hI.lt h)
 
 /-- values handed to an unexported-variable mocker have the variable's own type (anything else is documented as
     unpredictable) -/
@@ -79,6 +88,7 @@ theorem inv_update {s s' : State} (hI : Inv s) (i : Nat) (m' : Mocker)
     (hn : s'.n = s.n) (hc : s'.cache = s.cache) (hty : ∀ a, (s'.mem a).ty = (s.mem a).ty)
     (hm : s'.mks = upd s.mks i m')
     (hb : m'.b = (s.mks i).b) (hu : m'.ue = (s.mks i).ue) (ha : m'.addr = (s.mks i).addr)
+    (htg : m'.ue = false → m'.target = (s.mks i).target)
     (hk : m'.mocked = true → m'.canceled = false ∧ Owner s i ∧ m'.target = some (s.mem (s.mks i).addr).ty) :
     Inv s' := by
   have key : ∀ j, (s'.mks j).b = (s.mks j).b ∧ (s'.mks j).ue = (s.mks j).ue ∧ (s'.mks j).addr = (s.mks j).addr := by
@@ -94,7 +104,7 @@ theorem inv_update {s s' : State} (hI : Inv s) (i : Nat) (m' : Mocker)
       cases hmk : m'.mocked with
       | false => rw [self]; exact hmk
       | true =>
-        have := (hI.cacheOK _ _ _ _ (hk hmk).2.1.1).1
+        have := (hk hmk).2.1.1
         omega
     · rw [oth j hji]; exact hI.fresh j (by omega)
   · intro j hj
@@ -103,9 +113,12 @@ theorem inv_update {s s' : State} (hI : Inv s) (i : Nat) (m' : Mocker)
     · rw [oth j hji] at hj ⊢; exact hI.act j hj
   · intro j hj
     rw [(key j).1, (key j).2.1, (key j).2.2, hc]
+    exact hI.allCached j (by omega)
+  · intro j hj hue
+    rw [(key j).2.2, hty]
     by_cases hji : j = i
-    · subst hji; rw [self] at hj; exact (hk hj).2.1.1
-    · rw [oth j hji] at hj; exact hI.cur j hj
+    · subst hji; rw [self] at hue ⊢; rw [htg hue]; exact hI.ptrTyped j (by omega) (by rw [← hu]; exact hue)
+    · rw [oth j hji] at hue ⊢; exact hI.ptrTyped j (by omega) hue
   · intro j k hj hk' hjk
     rw [(key j).2.2, (key k).2.2] at hjk
     by_cases hji : j = i <;> by_cases hki : k = i
@@ -192,22 +205,24 @@ theorem doSet_inv {s : State} (hI : Inv s) (i : Nat) (v : Boxed) (hO : Owner s i
   rcases doSet_cases s i v with ⟨h, _⟩ | ⟨p, _, h⟩ | ⟨c, _, ht, _, h⟩
   · rw [h]; exact hI
   · rw [h]
-    refine inv_update hI i _ rfl rfl (fun _ => rfl) rfl ?_ ?_ ?_ ?_
+    refine inv_update hI i _ rfl rfl (fun _ => rfl) rfl ?_ ?_ ?_ ?_ ?_
     · split <;> rfl
     · split <;> rfl
     · split <;> rfl
+    · intro _; split <;> rfl
     · intro hm
       cases hmk : (s.mks i).mocked with
       | false => simp [hmk] at hm
       | true => simp only [hmk, if_true]; exact ⟨hI.act i hmk, hO, hI.typed i hmk⟩
   · rw [h]
-    refine inv_update hI i _ rfl rfl ?_ rfl ?_ ?_ ?_ ?_
+    refine inv_update hI i _ rfl rfl ?_ rfl ?_ ?_ ?_ ?_ ?_
     · intro a; simp only [upd]; split
       · next h => subst h; rfl
       · rfl
     · split <;> rfl
     · split <;> rfl
     · split <;> rfl
+    · intro _; split <;> rfl
     · intro _; refine ⟨rfl, hO, ?_⟩
       split <;> exact ht
 
@@ -260,9 +275,9 @@ theorem cancel_unmocked (s : State) (i : Nat) (h : (s.mks i).mocked = false) :
 theorem cancel_inv {s : State} (hI : Inv s) (i : Nat) : Inv (cancel false s i).1 := by
   rcases (cancel_cases hI i).2 with ⟨_, h⟩ | ⟨_, h⟩
   · rw [h]
-    exact inv_update hI i _ rfl rfl (fun _ => rfl) rfl rfl rfl rfl (by intro hm; simp_all)
+    exact inv_update hI i _ rfl rfl (fun _ => rfl) rfl rfl rfl rfl (fun _ => rfl) (by intro hm; simp_all)
   · rw [h]
-    refine inv_update hI i _ rfl rfl ?_ rfl rfl rfl rfl (by intro hm; simp at hm)
+    refine inv_update hI i _ rfl rfl ?_ rfl rfl rfl rfl (fun _ => rfl) (by intro hm; simp at hm)
     intro a; simp only [upd]; split
     · next h => subst h; rfl
     · rfl
@@ -290,15 +305,16 @@ def retarget (s : State) (i : Nat) (t : Ty) : State :=
 
 theorem retarget_owner {s : State} (i : Nat) (t : Ty) (hO : Owner s i) : Owner (retarget s i t) i := by
   constructor
-  · simp [retarget]; exact hO.1
+  · exact hO.1
   · intro j hj hm
     simp only [retarget, upd, if_neg hj] at hm ⊢
     simp only [if_true]
     exact hO.2 j hj hm
 
-theorem retarget_inv {s : State} (hI : Inv s) (i : Nat) (t : Ty) (hO : Owner s i)
+theorem retarget_inv {s : State} (hI : Inv s) (i : Nat) (t : Ty) (hO : Owner s i) (hue : (s.mks i).ue = true)
     (ht : t = (s.mem (s.mks i).addr).ty) : Inv (retarget s i t) := by
-  refine inv_update hI i { (s.mks i) with target := some t } rfl rfl (fun _ => rfl) rfl rfl rfl rfl ?_
+  refine inv_update hI i { (s.mks i) with target := some t } rfl rfl (fun _ => rfl) rfl rfl rfl rfl
+    (fun h => by rw [hue] at h; cases h) ?_
   intro hm
   exact ⟨hI.act i hm, hO, by simp [ht]⟩
 
@@ -330,7 +346,7 @@ theorem setOp_inv_base {s : State} (hI : Inv s) (i : Nat) (v : Boxed) (hO : Owne
     | some y =>
       have ht := hT hu y rfl
       have hO' := retarget_owner i y.ty hO
-      exact ⟨doSet_inv (retarget_inv hI i y.ty hO ht) i _ hO',
+      exact ⟨doSet_inv (retarget_inv hI i y.ty hO hu ht) i _ hO',
              fun a x hB => doSet_base i _ hO' a x (retarget_base i y.ty a x hB)⟩
 
 theorem applyOp_inv_base {s : State} (hI : Inv s) (i : Nat) (cb : Cb) (hO : Owner s i)
@@ -351,25 +367,28 @@ def lookFresh (s : State) (b : Nat) (ue : Bool) (c : Nat) : State :=
 
 theorem look_cases (s : State) (b : Nat) (ue : Bool) (c : Nat) :
     (look false s b ue c).2 = .ok ∧
-    ((∃ i, s.cache b ue c = some i ∧ (s.mks i).canceled = false ∧ (look false s b ue c).1 = { s with ret := i, pkg := upd s.pkg b 0 }) ∨
-     ((∀ i, s.cache b ue c = some i → (s.mks i).canceled = true) ∧ (look false s b ue c).1 = lookFresh s b ue c)) := by
+    ((∃ i, s.cache b ue c = some i ∧ (look false s b ue c).1 = { s with ret := i, pkg := upd s.pkg b 0 }) ∨
+     (s.cache b ue c = none ∧ (look false s b ue c).1 = lookFresh s b ue c)) := by
   unfold look
   cases hc : s.cache b ue c with
   | none => simp [lookFresh]
-  | some i =>
-    cases hk : (s.mks i).canceled with
-    | false => simp [hk]
-    | true => simp [hk, lookFresh]
+  | some i => simp
 
 theorem lookFresh_inv {s : State} (hI : Inv s) (b : Nat) (ue : Bool) (c : Nat)
-    (hmiss : ∀ i, s.cache b ue c = some i → (s.mks i).canceled = true) : Inv (lookFresh s b ue c) := by
-  have old : ∀ j, (s.mks j).mocked = true → j ≠ s.n := by
-    intro j hj h; subst h; have := hI.fresh s.n (Nat.le_refl _); rw [this] at hj; cases hj
+    (hmiss : s.cache b ue c = none) : Inv (lookFresh s b ue c) := by
+  have old : ∀ j, j < s.n → (lookFresh s b ue c).mks j = s.mks j := by
+    intro j hj
+    have : j ≠ s.n := by omega
+    simp only [lookFresh, upd, if_neg this]
   have mk' : ∀ j, ((lookFresh s b ue c).mks j).mocked = true → (lookFresh s b ue c).mks j = s.mks j ∧ (s.mks j).mocked = true := by
     intro j hj
     by_cases h : j = s.n
     · subst h; simp [lookFresh] at hj
     · simp only [lookFresh, upd, if_neg h] at hj ⊢; exact ⟨trivial, hj⟩
+  have keyne : ∀ j, j < s.n → ¬ ((s.mks j).b = b ∧ (s.mks j).ue = ue ∧ (s.mks j).addr = c) := by
+    intro j hj h
+    have hc := hI.allCached j hj
+    rw [h.1, h.2.1, h.2.2, hmiss] at hc; cases hc
   constructor
   · intro j hj
     have : j ≠ s.n := by simp only [lookFresh] at hj; omega
@@ -378,16 +397,21 @@ theorem lookFresh_inv {s : State} (hI : Inv s) (b : Nat) (ue : Bool) (c : Nat)
   · intro j hj
     obtain ⟨e, hm⟩ := mk' j hj; rw [e]; exact hI.act j hm
   · intro j hj
-    obtain ⟨e, hm⟩ := mk' j hj; rw [e]
-    have hc := hI.cur j hm
-    simp only [lookFresh]
-    split
-    · next h =>
-      obtain ⟨h1, h2, h3⟩ := h
-      rw [h1, h2, h3] at hc
-      have := hmiss j hc
-      rw [hI.act j hm] at this; cases this
-    · exact hc
+    have hj' : j < s.n + 1 := hj
+    by_cases h : j = s.n
+    · subst h; simp [lookFresh]
+    · have hlt : j < s.n := by omega
+      rw [old j hlt]
+      simp only [lookFresh]
+      rw [if_neg (keyne j hlt)]
+      exact hI.allCached j hlt
+  · intro j hj hue
+    have hj' : j < s.n + 1 := hj
+    by_cases h : j = s.n
+    · subst h; simp only [lookFresh, upd_same] at hue ⊢; simp [hue]
+    · have hlt : j < s.n := by omega
+      rw [old j hlt] at hue ⊢
+      exact hI.ptrTyped j hlt hue
   · intro j k hj hk hjk
     obtain ⟨ej, hmj⟩ := mk' j hj; obtain ⟨ek, hmk⟩ := mk' k hk
     rw [ej, ek] at hjk; exact hI.uniq j k hmj hmk hjk
@@ -419,11 +443,23 @@ theorem lookFresh_base {s : State} (hI : Inv s) (b : Nat) (ue : Bool) (c : Nat) 
     exact ⟨j, (moth j).2 hj, by simp only [lookFresh, upd, if_neg hne]; exact hjo⟩
   · right; exact ⟨fun k hk => hnone k ((moth k).1 hk), hc⟩
 
+/-- a state that differs only in `ret` / `pkg` satisfies the same invariant -/
+theorem inv_of_core {s t : State} (hI : Inv s) (h1 : t.mem = s.mem) (h2 : t.mks = s.mks) (h3 : t.n = s.n)
+    (h4 : t.cache = s.cache) : Inv t := by
+  constructor
+  · intro i; rw [h2, h3]; exact hI.fresh i
+  · intro i; rw [h2]; exact hI.act i
+  · intro i; rw [h2, h3, h4]; exact hI.allCached i
+  · intro i; rw [h2, h3, h1]; exact hI.ptrTyped i
+  · intro i j; rw [h2]; exact hI.uniq i j
+  · intro i; rw [h2, h1]; exact hI.typed i
+  · intro b u c i; rw [h2, h3, h4]; exact hI.cacheOK b u c i
+
 theorem look_inv_base {s : State} (hI : Inv s) (b : Nat) (ue : Bool) (c : Nat) :
     Inv (look false s b ue c).1 ∧ ∀ a x, IsBase s a x → IsBase (look false s b ue c).1 a x := by
-  rcases (look_cases s b ue c).2 with ⟨i, _, _, h⟩ | ⟨hmiss, h⟩
+  rcases (look_cases s b ue c).2 with ⟨i, _, h⟩ | ⟨hmiss, h⟩
   · rw [h]
-    exact ⟨⟨hI.fresh, hI.act, hI.cur, hI.uniq, hI.typed, hI.cacheOK⟩, fun a x hB => hB⟩
+    exact ⟨inv_of_core hI rfl rfl rfl rfl, fun a x hB => hB⟩
   · rw [h]; exact ⟨lookFresh_inv hI b ue c hmiss, fun a x => lookFresh_base hI b ue c a x⟩
 
 /-! ## Builder.Reset -/
@@ -521,12 +557,14 @@ theorem write_inv_base {s : State} (hI : Inv s) (c : Nat) (v : Boxed) :
     Inv (step false s (.write c v)).1 ∧
     ∀ a x, IsBase s a x → (a = c → ∃ i, MockedAt s a i) → IsBase (step false s (.write c v)).1 a x := by
   constructor
-  · exact ⟨hI.fresh, hI.act, hI.cur, hI.uniq,
-      fun i hi => by
-        have := hI.typed i hi
-        simp only [step, upd]; rw [this]; split
-        · next h => rw [h]
-        · rfl,
+  · have hty : ∀ a, ((step false s (.write c v)).1.mem a).ty = (s.mem a).ty := by
+      intro a; simp only [step, upd]; split
+      · next h => rw [h]
+      · rfl
+    exact ⟨hI.fresh, hI.act, hI.allCached,
+      fun i hi hu => by rw [hty]; exact hI.ptrTyped i hi hu,
+      hI.uniq,
+      fun i hi => by rw [hty]; exact hI.typed i hi,
       hI.cacheOK⟩
   · intro a x hB hw
     rcases hB with ⟨j, hj, hjo⟩ | ⟨hnone, hc⟩
@@ -544,7 +582,7 @@ theorem step_inv_base {s : State} (hI : Inv s) (op : Op) (hD : Disc s op) :
   cases op with
   | look b ue c => have h := look_inv_base hI b ue c; exact ⟨h.1, fun a x hB _ => h.2 a x hB⟩
   | lookBad p => exact ⟨hI, fun _ _ h _ => h⟩
-  | pkg b p => exact ⟨⟨hI.fresh, hI.act, hI.cur, hI.uniq, hI.typed, hI.cacheOK⟩, fun _ _ h _ => h⟩
+  | pkg b p => exact ⟨inv_of_core hI rfl rfl rfl rfl, fun _ _ h _ => h⟩
   | set i v => have h := setOp_inv_base hI i v hD.1 hD.2; exact ⟨h.1, fun a x hB _ => h.2 a x hB⟩
   | apply i cb => have h := applyOp_inv_base hI i cb hD.1 hD.2; exact ⟨h.1, fun a x hB _ => h.2 a x hB⟩
   | cancel i => exact ⟨cancel_inv hI i, fun a x hB _ => cancel_base hI i a x hB⟩
@@ -572,5 +610,81 @@ theorem run_inv_base (a : Nat) (x : Boxed) : ∀ (ops : List Op) {s : State}, In
     obtain ⟨hD, hw, hG'⟩ := hG
     have h := step_inv_base hI op hD
     exact ih h.1 hG' (h.2 a x hB hw)
+
+/-! ## what one mocker remembers, whatever the other mockers do (no discipline, no invariant) -/
+
+/-- operations that do not cancel mocker `i` (Resets are excluded here, see `restore_own_first_partial`) -/
+def KeepsMock (i : Nat) : Op → Prop
+  | .cancel j => j ≠ i
+  | .reset _ _ => False
+  | _ => True
+
+/-- what mocker `i` remembers: it holds a mock of variable `a` and saved `x` -/
+def Holds (s : State) (i a : Nat) (x : Boxed) : Prop :=
+  i < s.n ∧ (s.mks i).mocked = true ∧ (s.mks i).origin = x ∧ (s.mks i).addr = a
+
+theorem doSet_holds (t : State) (j : Nat) (v : Boxed) (i a : Nat) (x : Boxed) (h : Holds t i a x) :
+    Holds (doSet false t j v).1 i a x := by
+  obtain ⟨h1, h2, h3, h4⟩ := h
+  rcases doSet_cases t j v with ⟨hs, _⟩ | ⟨p, _, hs⟩ | ⟨c, _, _, _, hs⟩
+  · rw [hs]; exact ⟨h1, h2, h3, h4⟩
+  · rw [hs]
+    by_cases hji : i = j
+    · subst hji; simp only [Holds, upd_same, h2, if_true]; exact ⟨h1, trivial, h3, h4⟩
+    · simp only [Holds, upd, if_neg hji]; exact ⟨h1, h2, h3, h4⟩
+  · rw [hs]
+    by_cases hji : i = j
+    · subst hji; simp only [Holds, upd_same, h2, if_true]; exact ⟨h1, trivial, h3, h4⟩
+    · simp only [Holds, upd, if_neg hji]; exact ⟨h1, h2, h3, h4⟩
+
+theorem setOp_holds (s : State) (j : Nat) (v : Boxed) (i a : Nat) (x : Boxed) (h : Holds s i a x) :
+    Holds (setOp false s j v).1 i a x := by
+  rw [setOp_eq]
+  split
+  · cases v with
+    | none => exact h
+    | some y =>
+      apply doSet_holds
+      obtain ⟨h1, h2, h3, h4⟩ := h
+      by_cases hji : i = j
+      · subst hji; simp only [Holds, retarget, upd_same]; exact ⟨h1, h2, h3, h4⟩
+      · simp only [Holds, retarget, upd, if_neg hji]; exact ⟨h1, h2, h3, h4⟩
+  · exact doSet_holds s j v i a x h
+
+theorem step_holds (s : State) (op : Op) (i a : Nat) (x : Boxed) (h : Holds s i a x) (hk : KeepsMock i op) :
+    Holds (step false s op).1 i a x := by
+  cases op with
+  | look b ue c =>
+    obtain ⟨h1, h2, h3, h4⟩ := h
+    simp only [step, look]
+    cases s.cache b ue c with
+    | some j => exact ⟨h1, h2, h3, h4⟩
+    | none =>
+      have hne : i ≠ s.n := by omega
+      simp only [Holds, upd, if_neg hne]
+      exact ⟨by omega, h2, h3, h4⟩
+  | lookBad p => exact h
+  | pkg b p => exact h
+  | write c v => exact h
+  | set j v => exact setOp_holds s j v i a x h
+  | apply j cb =>
+    simp only [step, applyOp]
+    cases cbResult cb with
+    | error p => exact h
+    | ok v => simp only [Bool.false_eq_true, if_false]; exact setOp_holds s j v i a x h
+  | cancel j =>
+    have hji : i ≠ j := fun e => hk e.symm
+    obtain ⟨h1, h2, h3, h4⟩ := h
+    simp only [step, cancel, Bool.false_eq_true, if_false]
+    split
+    · split
+      · exact ⟨h1, h2, h3, h4⟩
+      · split
+        · exact ⟨h1, h2, h3, h4⟩
+        · split
+          · exact ⟨h1, h2, h3, h4⟩
+          · simp only [Holds, upd, if_neg hji]; exact ⟨h1, h2, h3, h4⟩
+    · simp only [Holds, upd, if_neg hji]; exact ⟨h1, h2, h3, h4⟩
+  | reset b ord => exact absurd hk id
 
 end C08L
